@@ -612,7 +612,7 @@ func c11prop(ev *evid.Rec) func(rt *rapid.T) {
 					if n == nil {
 						rt.Skip()
 					}
-					cm := rapid.SampledFrom([]string{"c", "a longer comment", strings.Repeat("z", 200), "caf\x8e", "", ""}).Draw(rt, "comment") // "" = the comment field is present but empty: the comment is cleared
+					cm := rapid.SampledFrom([]string{"c", "a longer comment", strings.Repeat("z", 200), "caf\x8e", "", "", strings.Repeat("W", 33000), strings.Repeat("V", 60000)}).Draw(rt, "comment") // (the whole request has to fit the 64 KiB frame) // "" = the comment field is present but empty: the comment is cleared
 					rec("set-comment %v/%q", p, n.name)
 					s.mutate(fmt.Sprintf("set-comment on %q in %v", n.name, p), hlref.TranSetFileInfo, append(nameFields(p, n), sfld(hlref.FFileComment, cm))...)
 					n.hasInfo, n.comment = true, cm
